@@ -12,6 +12,8 @@ import Oracle.C01
         with limit < 501 a column has no i value together with an s or b value (see colOk)
       → c{size=<n|none> blk=[B;B;..]} d{..}     B ::= - (column not in the block) | <e>:<hex of the column's records>
                                                 e ::= c columnar | d dictionary | m rewritten by the consolidation
+        followed by   bsu=[n;n;..] bmh=[b;b;..]   the record counts of the block summaries in the order of the .bsu
+                                                file and the block numbers that have block metadata
 -/
 namespace Oracle.C01Seg
 open SigModel.Tlv Oracle
@@ -60,6 +62,23 @@ def showCol (name : String) (lim : Nat) (c : List (List (Option Val))) : String 
   let sz := match st.size with | some n => toString n | none => "none"
   name ++ "{size=" ++ sz ++ " blk=[" ++ String.intercalate ";" (st.blocks.map (showBlock lim)) ++ "]}"
 
+def evKind (vs : List (Option Val)) : EvKind :=
+  if vs.any (fun v => match v with | some .backfill => false | some _ => true | none => false) then .vals
+  else if vs.any (fun v => v.isSome) then .nulls else .bare
+
+/-- the events of block `b` as rows over the columns -/
+def rowsOf (cs : List (List (List (Option Val)))) (b : Nat) : List (List (Option Val)) :=
+  let n := ((cs.head?.getD [])[b]?.getD []).length
+  (List.range n).map (fun e => cs.map (fun c => ((c[b]?.getD [])[e]?).getD none))
+
+/-- the block summaries the reader finds in the .bsu file: record counts by position, block numbers present -/
+def showBsu (cs : List (List (List (Option Val)))) : String :=
+  let nb := (cs.head?.getD []).length
+  let ops : List BlkOp := (List.range nb).flatMap (fun b => (rowsOf cs b).map (fun r => BlkOp.ev (evKind r)) ++ [BlkOp.flush])
+  let st := runBlk ops
+  " bsu=[" ++ String.intercalate ";" (st.bsu.map (fun p => toString p.2)) ++ "] bmh=[" ++
+    String.intercalate ";" ((st.bsu.map (·.1)).eraseDups.map toString) ++ "]"
+
 def w (args : List String) : String :=
   match args with
   | limTok :: cols =>
@@ -67,10 +86,10 @@ def w (args : List String) : String :=
     | some lim, some cs =>
       if lim = 0 ∨ lim > 65535 ∨ toString lim ≠ limTok then "bad-op" else
       match cs with
-      | [c] => if colOk lim c then showCol "c" lim c else "bad-op"
+      | [c] => if colOk lim c then showCol "c" lim c ++ showBsu [c] else "bad-op"
       | [c, d] =>
         if colOk lim c && colOk lim d && c.map List.length == d.map List.length then
-          showCol "c" lim c ++ " " ++ showCol "d" lim d
+          showCol "c" lim c ++ " " ++ showCol "d" lim d ++ showBsu [c, d]
         else "bad-op"
       | _ => "bad-op"
     | _, _ => "bad-op"
